@@ -457,7 +457,7 @@ def _confusion(check: Check):
         r, col = sub.slice.elts
         one = c.args and isinstance(c.args[0], ast.Constant) and c.args[0].value == 1
         col_ok = any(isinstance(x, ast.Call) and ff.ext(x.func) in ARGMAX for x in ff.expand(col))
-        ok = isinstance(r, ast.Name) and _is_target(ff, r) and col_ok and one
+        ok = _is_target(ff, r) and col_ok and one
   check.ob('R-ORDER.confusion', ev, 'zeros.at[target, argmax(pred)].set(1)', ok,
            'one count at row = target, column = predicted class, all other cells zero')
   # shape validation raises
